@@ -743,6 +743,57 @@ def r02_11(ctx):
     ctx.floor("R02.11", "separator dispatches (byte switch with ',' and a closing bracket)", n, 8)
 
 
+def r02_12(ctx):
+    """no leading zeros, for negative numbers too: in the validating number skipper the byte that the leading-zero test
+    compares with b'0' is, on the '-' edge, the digit read after the sign (skip_single_digit), not the sign itself"""
+    prog = ctx.prog()
+    fn = prog.find("Parser::do_skip_number")
+    zero_tests = []
+    for b, i, s in fn.assigns():
+        rv = s["rv"]
+        if rv["k"] == "binop" and rv["op"] == "Eq" and 48 in (op_int(rv["a"]), op_int(rv["b"])):
+            o = rv["a"] if op_int(rv["b"]) == 48 else rv["b"]
+            zero_tests.append((b, s, o))
+    ctx.floor("R02.12", "comparisons with b'0' in do_skip_number", len(zero_tests), 1)
+    minus = []
+    for b, i, s in fn.assigns():
+        rv = s["rv"]
+        if rv["k"] == "binop" and rv["op"] == "Eq" and 45 in (op_int(rv["a"]), op_int(rv["b"])):
+            e = bool_switch_edges(fn, s["lhs"][0])
+            if e:
+                minus.append(e[0])
+    for b, t in fn.terms():
+        if t["k"] == "switch" and t.get("dty") == "u8":
+            minus += [x for v, x in t["targets"] if int(v) == 45]
+    digit_calls = [(b, t) for b, t in fn.calls() if callee_is(t, "skip_single_digit")]
+    ok_any = False
+    for b, s, o in zero_tests:
+        l = op_local(o)
+        root = l
+        for _ in range(5):
+            if root is not None and 1 <= root <= fn.argc:
+                break   # the (mutable) parameter itself
+            d = fn.single_def(root) if root is not None else None
+            if d and d[0] == "stmt" and d[3]["rv"]["k"] == "use" and op_local(d[3]["rv"]["op"]) is not None:
+                root = op_local(d[3]["rv"]["op"])
+            else:
+                break
+        defs = fn.defs.get(root, []) if root is not None else []
+        from_digit = False
+        for d in defs:
+            if d[0] == "stmt" and d[3]["rv"]["k"] == "use":
+                sl, leaves = backward_slice(fn, [op_local(d[3]["rv"]["op"])]) if op_local(d[3]["rv"]["op"]) is not None else (set(), [])
+                if any(lf[0] == "call" and callee_is(lf[2], "skip_single_digit") for lf in leaves) and any(d[1] == m or fn.dominates(m, d[1]) for m in minus):
+                    from_digit = True
+            if d[0] == "call" and callee_is(d[2], "skip_single_digit"):
+                from_digit = True
+        if from_digit:
+            ok_any = True
+    ctx.ob("R02.12", "leading-zero-test-sees-the-digit-after-the-sign", ok_any and bool(minus) and bool(digit_calls), fn.loc(zero_tests[0][1].get("ln") if zero_tests else None),
+           "on the '-' edge the byte tested for a leading zero is the digit returned by skip_single_digit" if ok_any else
+           "the byte tested for a leading zero is never replaced by the digit after the sign: -01, -007 are skipped as numbers (raw numbers and lazy values then hold invalid JSON)")
+
+
 def r02_9(ctx):
     c07.r07_4(ctx)
     # relabel
@@ -759,4 +810,4 @@ def r02_s(ctx):
         ctx.include(fn, 'R02.S')
 
 
-RULES = [("R02.1", r02_1), ("R02.2", r02_2), ("R02.3", r02_3), ("R02.4", r02_4), ("R02.5", r02_5), ("R02.6", r02_6), ("R02.7", r02_7), ("R02.8", r02_8), ("R02.9", r02_9), ("R02.10", r02_10), ("R02.11", r02_11), ("R02.S", r02_s)]
+RULES = [("R02.1", r02_1), ("R02.2", r02_2), ("R02.3", r02_3), ("R02.4", r02_4), ("R02.5", r02_5), ("R02.6", r02_6), ("R02.7", r02_7), ("R02.8", r02_8), ("R02.9", r02_9), ("R02.10", r02_10), ("R02.11", r02_11), ("R02.12", r02_12), ("R02.S", r02_s)]
